@@ -10,6 +10,8 @@ ROOT = os.path.dirname(os.path.dirname(os.path.abspath(__file__)))
 def main():
     checks = []
     for pid in sorted(P.PROPS):
+        if pid in P.NOT_APPLICABLE:
+            continue
         info = P.PROPS[pid]
         checks.append({
             "property_id": pid,
@@ -34,10 +36,10 @@ def main():
             "add_only": True,
         },
         "engines": [
-            {"name": "kani", "path": "/verif/kani", "serves_properties": sorted(p for p in P.PROPS if "kani" in P.PROPS[p]["engines"]),
+            {"name": "kani", "path": "/verif/kani", "serves_properties": sorted(p for p in P.PROPS if "kani" in P.PROPS[p]["engines"] and p not in P.NOT_APPLICABLE),
              "kind_free_text": "Kani 0.68 proof harnesses (out-of-tree crate, path dependency on /repo/palette), CBMC 6.11 + cadical; "
                                "counterexamples replayed natively with Kani concrete playback"},
-            {"name": "symx", "path": "/verif/symx", "serves_properties": sorted(p for p in P.PROPS if "symx" in P.PROPS[p]["engines"]),
+            {"name": "symx", "path": "/verif/symx", "serves_properties": sorted(p for p in P.PROPS if "symx" in P.PROPS[p]["engines"] and p not in P.NOT_APPLICABLE),
              "kind_free_text": "symbolic instantiation of palette's generic code with a term-building number type, z3 over the term DAG; "
                                "counterexamples replayed natively in f32 and f64"},
         ],
